@@ -68,14 +68,92 @@ func (m *rfModel) key() string {
 var base0 = time.Date(2000, 1, 1, 0, 0, 0, 0, time.UTC)
 
 func runC11(c *harness.Ctx) {
-	switch c.T.Draw("part", 4) {
+	switch c.T.Draw("part", 5) {
 	case 0:
 		runC11Sequential(c)
 	case 1:
 		runC11Capacity(c)
+	case 4:
+		runC11Bursts(c)
 	default:
 		runC11Concurrent(c)
 	}
+}
+
+// runC11Bursts: many distinct values arrive close together, then nothing for a
+// while, then probes - the histories of a bridge that sees a wave of clients
+// and then a quiet period.  Everything is compared with the reference set.
+func runC11Bursts(c *harness.Ctx) {
+	t := c.T
+	c.Info["part"] = "bursts"
+	c.S.YieldOn = func(int) bool { return false } // one caller
+	ttl := []time.Duration{3 * time.Hour, time.Second}[t.Draw("ttl", 2)]
+	f, err := replayfilter.New(ttl)
+	if err != nil {
+		panic(err)
+	}
+	m := &rfModel{ttl: ttl}
+	now := time.Duration(1 << 40)
+	next := 0
+	var hist []string
+	step := func(dt time.Duration, v string, what string) bool {
+		now += dt
+		got := f.TestAndSet(base0.Add(now), []byte(v))
+		want := m.testAndSet(now, v)
+		if got != want {
+			c.Violate("C11/answer-differs-from-model", "ttl %v, %v; then %s of %s at +%v: the filter answered seen=%v, the reference set (which held %d values) says %v", ttl, hist, what, v, dt, got, len(m.s), want)
+			return false
+		}
+		return true
+	}
+	for phase, phases := 0, 1+t.Draw("phases", 3); phase < phases; phase++ {
+		b := []int{1, 2, 63, 64, 65, 66, 100, 129, 300}[t.Draw("burst", 9)]
+		if t.Draw("burstr", 3) == 2 {
+			b = 1 + t.Draw("burstn", 400)
+		}
+		spacing := []time.Duration{0, time.Nanosecond, ttl / time.Duration(4*b+1)}[t.Draw("spacing", 3)]
+		first := next
+		for i := 0; i < b; i++ {
+			if !step(spacing, fmt.Sprintf("w%d", next), "insertion") {
+				return
+			}
+			next++
+		}
+		gap := []time.Duration{0, ttl / 2, ttl - 1, ttl, ttl + 1, 2 * ttl, ttl - spacing*time.Duration(b/2)}[t.Draw("gap", 7)]
+		hist = append(hist, fmt.Sprintf("burst of %d (w%d..w%d, %v apart), quiet for %v", b, first, next-1, spacing, gap))
+		for k, probes := 0, 1+t.Draw("probes", 5); k < probes; k++ {
+			var i int
+			switch t.Draw("probe", 6) {
+			case 0:
+				i = first
+			case 1:
+				i = next - 1
+			case 2:
+				i = first + 63
+			case 3:
+				i = first + 64
+			case 4:
+				i = first + 65
+			default:
+				i = t.Draw("proben", next)
+			}
+			if i >= next {
+				i = next - 1
+			}
+			dt := time.Duration(0)
+			if k == 0 {
+				dt = gap
+			}
+			if !step(dt, fmt.Sprintf("w%d", i), "probe") {
+				return
+			}
+			hist = append(hist, fmt.Sprintf("probe w%d", i))
+		}
+	}
+	c.Info["history"] = hist
+	c.Feature("bursts-and-quiet-periods")
+	c.Reached, c.Nontrivial = true, true
+	c.Case(strings.Join(hist, "; "))
 }
 
 func runC11Sequential(c *harness.Ctx) {
